@@ -180,6 +180,7 @@ def install():
             rec["ray_dense_err"] = abs(float(np.real(np.vdot(psi, hd @ psi)) / n2) - float(e)) / max(1.0, abs(float(e)))
             rec["out_of_sector"] = float(np.linalg.norm(psi[~sector])) / np.sqrt(n2)
             rec["mask_dim"] = int(np.sum(ttns.get_qnmask(snode, include_parent=True)))
+            rec["algo"] = ttns.optimize_config.algo
         except Exception:
             rec["hook_error"] = traceback.format_exc()[-1200:]
         finally:
@@ -193,20 +194,23 @@ def install():
 
 def run_case(case):
     out = {"id": case["id"]}
-    rng = np.random.default_rng(case["seed"])
+    rng = np.random.default_rng(case.get("model_seed", case["seed"]))
     np.random.seed(case["seed"] % (2 ** 32))
     t0 = time.time()
     try:
         if case["kind"] == "spin":
-            model = model_spin(case["n"], case.get("qn", True), rng, case.get("enc", "01"))
+            model = model_spin(case["n"], case.get("qn", True), rng, case.get("enc", "01"), False, bool(case.get("lr")))
         else:
-            model = model_holstein(case["nmol"], case["nbas"], rng)
+            model = model_holstein(case["nmol"], case["nbas"], rng, case.get("qn", True))
         basis_list = list(model.basis)
         tree = make_tree(basis_list, case["topo"], rng)
         hd = dense_from_terms(model)
         tot = total_qn(model)
         if case.get("sector") == "rand":
             qn = [abs(int(x)) for x in tot[int(rng.integers(len(tot)))].tolist()]
+        elif case.get("sector") == "mid":
+            vals, cnt = np.unique(tot, axis=0, return_counts=True)
+            qn = [int(x) for x in vals[int(np.argmax(cnt))]]
         elif case.get("sector") is None:
             qn = [0] * tot.shape[1]
         else:
